@@ -638,6 +638,9 @@ type Property interface {
 
 var registry = map[string]Property{}
 
+// hardExit, when set, prints the result and exits the process without tearing the bubble down.
+var hardExit func(c *Case, r *Result)
+
 func register(p Property) { registry[p.ID()] = p }
 
 // genPolicy draws a scheduling policy (swarm style).
@@ -743,6 +746,16 @@ func (e *Env) finish() {
 		}
 	}
 	e.Ended = true
+	// a run that ended in a deadlock cannot be torn down: the deadlocked goroutines would block
+	// on real mutexes (not durably, for synctest) as soon as they are released. The verdict is
+	// complete; hand it out and leave the process.
+	for _, v := range r.Violations {
+		if strings.Contains(v.Class, "lock-cycle") || strings.Contains(v.Class, "blocked-forever") || strings.Contains(v.Class, "never-returned") || strings.HasSuffix(v.Class, "-stuck") {
+			if hardExit != nil {
+				hardExit(e.C, r)
+			}
+		}
+	}
 	// free-run teardown (no longer part of the judged history)
 	simrt.Deactivate()
 	s.ReleaseAll()
